@@ -10,6 +10,10 @@ for e in d['findings']:
     os.makedirs(out, exist_ok=True)
     patch = subprocess.run(['git', '-C', '/repo', 'show', '-R', '--format=', e['commit'], '--', 'pokerkit'],
                            capture_output=True, text=True).stdout
+    meta_path = os.path.join(out, 'meta.json')
+    if os.path.exists(meta_path) and json.load(open(meta_path)).get('adapted'):
+        print(e['id'], e['property'], 'kept (hand-adapted to the current tree)')
+        continue
     open(os.path.join(out, 'patch.diff'), 'w').write(patch)
     chk = subprocess.run(['git', '-C', '/repo', 'apply', '--check', os.path.join(out, 'patch.diff')], capture_output=True, text=True)
     meta_path = os.path.join(out, 'meta.json')
